@@ -1,5 +1,4 @@
-(* C08, the part that can be stated of the SOURCE AS IT IS NOW.  `delete` itself mutates through the `&mut Value` that
-   resolve_mut returns (hand-written model + differential tie, Properties/C08.v); every decision it takes is made by
+(* C08, stated of the SOURCE AS IT IS NOW.  First part: every decision `delete` takes is made by
    functions that ARE re-translated from the source on every run: split_back (last token / parent pointer), the parent
    walk resolve_mut, Token::to_index = Index::from_str, the EXCLUSIVE bound check for_len (the repaired F4), and
    Token::decoded for the member name. *)
@@ -47,4 +46,36 @@ Example C08_src_examples :
   gen_Index_for_len (Index_Num 1) 1 = Ret (Err (mk_OutOfBoundsError 1 1)) /\
   gen_Index_for_len Index_Next 0 = Ret (Err (mk_OutOfBoundsError 0 0)) /\
   gen_Pointer_split_back [47; 97; 47; 48] = Ret (Some ([47; 97], tokB [48])).
+Proof. vm_compute. repeat split. Qed.
+
+(* ==== delete itself, re-translated in lens mode (DESIGN 13.8) ============================================================ *)
+From JP Require Import Model.Pointer SpecHist Proofs.HistoryProofs Generated.ScanTreeMut Proofs.GenEquivTreeMut Proofs.GenClosureMut.
+
+(* `doc.delete(p)` of the CURRENT source IS the model's delete (same document afterwards, same removed value, same panics),
+   for every real document and EVERY pointer text, both backends *)
+Theorem C08_src_delete_is_model : forall (be : backend) (d : value) (p : str), sorted_value d ->
+  gen_delete be d (lens_root d) p = delete be p d.
+Proof. exact gen_delete_eq. Qed.
+Print Assumptions C08_src_delete_is_model.
+
+(* ... hence the specification's on every valid pointer: remove exactly the node resolve finds, or change nothing *)
+Theorem C08_src_delete_refines : forall (be : backend) (d : value) (p : str), sorted_value d -> valid_ptr p = true ->
+  gen_delete be d (lens_root d) p = Ret (spec_delete be (tokens p) d).
+Proof. exact gen_delete_refines. Qed.
+Print Assumptions C08_src_delete_refines.
+
+(* the parent is reached BY REFERENCE: resolve_mut returns a reference at the path resolve reports, showing that node, and
+   writing through it replaces exactly that node *)
+Theorem C08_src_parent_reference : forall (be : backend) (d : value) (p : str),
+  lres_rel d d (gen_resolve_mut_lens be d (lens_root d) p) (resolve p d).
+Proof. exact gen_resolve_mut_lens_ok. Qed.
+Print Assumptions C08_src_parent_reference.
+
+(* {"a":[1,2]} : delete /a/0 removes 1; delete /a/- and /a/2 remove nothing; delete "" empties the document *)
+Example C08_src_delete_examples :
+  let d := Obj [([97], Arr [VInt 1; VInt 2])] in
+  gen_json_delete d (lens_root d) [47;97;47;48] = Ret (Obj [([97], Arr [VInt 2])], Some (VInt 1)) /\
+  gen_toml_delete d (lens_root d) [47;97;47;45] = Ret (d, None) /\
+  gen_json_delete d (lens_root d) [47;97;47;50] = Ret (d, None) /\
+  gen_json_delete d (lens_root d) [] = Ret (Null, Some d) /\ gen_toml_delete d (lens_root d) [] = Ret (Obj [], Some d).
 Proof. vm_compute. repeat split. Qed.
